@@ -193,6 +193,48 @@ Proof.
   destruct (N.ltb_spec 0xFFFF (tbl from b)); [lia|]. destruct (N.eqb_spec b 0); [lia|reflexivity].
 Qed.
 
+(** encode soundness over the generated tables: every record (u, b) of a to-table is the inverse of the
+    from-table, i.e. byte b decodes to u -- no best-fit record that writes a character as a different one
+    (the repaired defect F42 of C05 = F46 of C12).  The only exception on the pinned tree is U+0085 in IBM1047 (finding F24). *)
+Definition table_to_exceptions : list (list N) := [ []; []; [133]; [] ].
+
+Definition table_enc_ok (xe : (list N * list (N * N) * N) * list N) : bool :=
+  let '((from, to, sz), uexc) := xe in
+  forallb (fun p => existsb (N.eqb (fst p)) uexc || (tbl from (snd p) =? fst p)) to.
+
+Theorem all_tables_enc_ok : forallb table_enc_ok (combine all_tables table_to_exceptions) = true.
+Proof. vm_compute. reflexivity. Qed.
+
+(** consequence: a unit the table claims to encode is written as a byte that decodes back to that unit *)
+Lemma xlat_in_gen : forall fuel t c lo hi, xlat_loop fuel t c lo hi <> 0 -> In (c, xlat_loop fuel t c lo hi) t.
+Proof. intros fuel t c lo hi H. eapply xlat_loop_sound; [reflexivity|exact H]. Qed.
+
+Lemma xlat_to_in : forall t sz c, xlat_to t sz c <> 0 -> In (c, xlat_to t sz c) t.
+Proof. intros t sz c. exact (xlat_in_gen 64 t c 0 (sz - 1)). Qed.
+
+Lemma table_enc_in_ok : forall x, In x (combine all_tables table_to_exceptions) -> table_enc_ok x = true.
+Proof. intros x H. pose proof all_tables_enc_ok as A. rewrite forallb_forall in A. apply A. exact H. Qed.
+
+Lemma table_enc_rec : forall from to sz uexc u b, table_enc_ok ((from, to, sz), uexc) = true ->
+  In (u, b) to -> ~ In u uexc -> tbl from b = u.
+Proof.
+  intros from to sz uexc u b A Hrec Hexc. unfold table_enc_ok in A. rewrite forallb_forall in A.
+  specialize (A _ Hrec). cbn [fst snd] in A. apply orb_prop in A. destruct A as [Hx|Hx].
+  - exfalso. apply Hexc. apply existsb_exists in Hx. destruct Hx as (y & Hy & Ey). apply N.eqb_eq in Ey. subst y. exact Hy.
+  - apply N.eqb_eq. exact Hx.
+Qed.
+
+Theorem tables_enc_roundtrip : forall from to sz uexc c,
+  In ((from, to, sz), uexc) (combine all_tables table_to_exceptions) ->
+  tab_can to sz c = true -> ~ In c uexc -> tbl from (xlat_to to sz c) = c.
+Proof.
+  intros from to sz uexc c Hin Hcan Hexc. apply table_enc_in_ok in Hin.
+  assert (Hne : xlat_to to sz c <> 0).
+  { unfold tab_can in Hcan. destruct (0xFFFF <? c); [discriminate|].
+    destruct (N.eqb_spec (xlat_to to sz c) 0) as [|Hne]; [discriminate|exact Hne]. }
+  eapply table_enc_rec; [exact Hin|apply xlat_to_in; exact Hne|exact Hexc].
+Qed.
+
 (** known finding F24 (faithful model): IBM1047 byte 0x15 decodes to LF and does not round-trip *)
 Theorem ibm1047_nel_refuted :
   tbl ibm1047_from 0x15 = 0x0A /\ xlat_to ibm1047_to ibm1047_tosz 0x85 = 0x15 /\
